@@ -2,6 +2,7 @@
 import MdVerif.Model.Formats
 import MdVerif.Model.TextFmt
 import MdVerif.Model.Xdr
+import MdVerif.Model.Dcd
 import MdVerif.Driver.Mic
 namespace MdVerif.Driver.FmtP
 open MdVerif.Mic MdVerif.Fmt MdVerif.Txt MdVerif.Driver.MicP
@@ -78,8 +79,23 @@ def handleTrr (hex : String) : String :=
     | some fs => "ok " ++ ";".intercalate (fs.map (fun f =>
         s!"{f.natoms} {f.step} {showF32 f.time} {showF32 f.lambda} B {" ".intercalate (f.box.map showF32)} X {" ".intercalate (f.x.map showF32)}"))
 
+def showF64Pairs : List Nat → List String
+  | lo :: hi :: r => (match MdVerif.Dcd.f64ToRat lo hi with | some q => showRat q | none => "nonfinite") :: showF64Pairs r
+  | _ => []
+
+/-- `dcd <hex of the file>`: "ok nset istart nsavc nstep hasCell natoms" then per frame ";C six doubles X … Y … Z …" -/
+def handleDcd (hex : String) : String :=
+  match hexBytes hex.toList with
+  | none => "bad-op"
+  | some bytes =>
+    match MdVerif.Dcd.readDcd bytes with
+    | none => "unreadable"
+    | some (h, fs) => s!"ok {h.nset} {h.istart} {h.nsavc} {h.nstep} {if h.hasCell then 1 else 0} {h.natoms}" ++ String.join (fs.map (fun f =>
+        s!";C {" ".intercalate (showF64Pairs f.cell)} X {" ".intercalate (f.x.map showF32)} Y {" ".intercalate (f.y.map showF32)} Z {" ".intercalate (f.z.map showF32)}"))
+
 def handleFmt : List String → String
   | ["trr", hex] => handleTrr hex
+  | ["dcd", hex] => handleDcd hex
   -- fmtq <format> <gro precision> <n atoms> <values in nm …>: stored (native) and loaded (nm) value of each, and the tie margin of the rounding
   | "fmtq" :: fs :: gs :: ns :: rest =>
     match parseF fs, gs.toNat?, ns.toNat?, rest.mapM parseRat with
